@@ -32,6 +32,28 @@ theorem run_require (c : Bool) (e : Err) (s : St) :
 @[simp] theorem run_require_true (e : Err) (s : St) : M.require true e s = (.ok (), s) := rfl
 @[simp] theorem run_require_false (e : Err) (s : St) : M.require false e s = (.error e, s) := rfl
 
+theorem run_onError {α : Type} (m : M α) (fin : St → St) (s : St) :
+    onError m fin s = match m s with
+      | (.ok a, s1) => (.ok a, s1)
+      | (.error e, s1) => (.error e, fin s1) := rfl
+theorem run_onError_ok {α : Type} {m : M α} {fin : St → St} {s s1 : St} {a : α} (h : m s = (.ok a, s1)) :
+    onError m fin s = (.ok a, s1) := by rw [run_onError, h]
+theorem run_onError_err {α : Type} {m : M α} {fin : St → St} {s s1 : St} {e : Err} (h : m s = (.error e, s1)) :
+    onError m fin s = (.error e, fin s1) := by rw [run_onError, h]
+
+/-- `checkCanCollateral` reads the risk table only -/
+theorem checkCanCollateral_snd (env : Env) (tok : String) (coll : Bool) (s : St) :
+    (checkCanCollateral env tok coll s).2 = s := by
+  unfold checkCanCollateral
+  cases coll with
+  | false => rfl
+  | true =>
+    simp only [if_true]
+    rw [run_bind, run_ofRes]
+    cases env.riskOf tok with
+    | error e => rfl
+    | ok r => simp only [run_require]; split <;> rfl
+
 /-! ### invariants -/
 
 /-- `m` keeps `I`, whatever it returns or raises -/
@@ -59,6 +81,19 @@ theorem Inv.queryPos {I : St → Prop} {α : Type} (q : AList String SupplyInfo 
 theorem Inv.require {I : St → Prop} (c : Bool) (e : Err) : Inv I (M.require c e) := by
   intro s h; rw [run_require]; split <;> exact h
 theorem Inv.modify {I : St → Prop} (f : St → St) (h : ∀ s, I s → I (f s)) : Inv I (M.modify f) := fun s hs => h s hs
+
+theorem Inv.checkCanCollateral {I : St → Prop} (env : Env) (tok : String) (coll : Bool) :
+    Inv I (checkCanCollateral env tok coll) := fun s h => by rw [checkCanCollateral_snd]; exact h
+theorem Inv.onError {I : St → Prop} {α : Type} {m : M α} {fin : St → St} (hm : Inv I m) (hf : ∀ s, I s → I (fin s)) :
+    Inv I (onError m fin) := by
+  intro s hs
+  have h1 := hm s hs
+  rw [run_onError]
+  rcases hms : m s with ⟨r, s1⟩
+  rw [hms] at h1
+  cases r with
+  | ok a => exact h1
+  | error e => exact hf s1 h1
 
 /-- `m` keeps `I` unless it raises one of the excluded errors -/
 def InvE (I : St → Prop) (bad : Err → Prop) {α : Type} (m : M α) : Prop :=
@@ -95,7 +130,7 @@ theorem Inv.bind_ofRes {I : St → Prop} {α β : Type} {r : Res α} {f : α →
 macro "inv_step" : tactic => `(tactic| first
   | assumption
   | exact Inv.pure _ | exact Inv.ofRes _ | exact Inv.throw _ | exact Inv.get | exact Inv.require _ _
-  | exact Inv.queryPos _
+  | exact Inv.queryPos _ | exact Inv.checkCanCollateral _ _ _
   | refine Inv.bind_ofRes (fun _ _ => ?_)
   | refine Inv.bind ?_ (fun _ => ?_)
   | split
